@@ -310,12 +310,15 @@ def sequence_check(spec):
         L, th = build_loss(spec)
         L.jtj(th)
         theta2 = list(spec["theta"])
-        theta2[k] = theta2[k] * 1.5 + 0.2
+        theta2[k] = theta2[k] * 1.15 + 0.05
         L._ode.parameters = {other: theta2[k]}
         J2 = np.asarray(L.jtj(th), dtype=float)
     except Exception as e:      # noqa: B902
         return [("jtj-sequence-raises", "jtj(theta); model.parameters = {%s: ...}; jtj(theta) raised %s: %s" % (other, type(e).__name__, e))]
-    R2 = c20ref.curvature(ref_spec(dict(spec, theta=theta2)))
+    try:
+        R2 = c20ref.curvature(ref_spec(dict(spec, theta=theta2)))
+    except RuntimeError:
+        return []           # the changed model has no solution over the observation window: nothing to compare with
     sc = 1 + float(np.abs(R2["jtj"]).max())
     if not close(J2, R2["jtj"], TOL, sc):
         return [("jtj-stale-after-model-change", "jtj(theta) evaluated, then parameter %s (not estimated by this loss object) changed on "
@@ -412,11 +415,16 @@ def run_search(ck):
             pidx = c20ref.selection(spec)[1]
             theta2 = list(spec["theta"])
             for i in pidx:
-                theta2[i] = round(theta2[i] * 1.3 + 0.1, 6)
+                theta2[i] = round(theta2[i] * 1.08 + 0.02, 6)      # a nearby point (an optimiser's next iterate)
             spec2 = dict(spec, theta=theta2)
             seconds.append(1)
             try:
                 V2, _ = check_spec(spec2, with_fd=False, loss=_LAST_LOSS[0])
+            except RuntimeError as e:
+                if "reference integration failed" in str(e):       # the shifted theta leaves the region where the model has a solution
+                    ck.notes["second_evaluation_reference_failed"] = ck.notes.get("second_evaluation_reference_failed", 0) + 1
+                    continue
+                V2 = [("second-evaluation-raises", "%s: %s" % (type(e).__name__, str(e)[:200]))]
             except Exception as e:      # noqa: B902
                 V2 = [("second-evaluation-raises", "%s: %s" % (type(e).__name__, str(e)[:200]))]
             for cls, what in V2:
